@@ -280,28 +280,70 @@ void h_write_to_buffer(void)
   VERIF_CANARY();
 }
 
-/* up to EP_CHUNKS_MAX chunks, every one in an arbitrary well-formed state */
+/* read_from_chunks: plain harness (no dfcc), real byte_buffer_consume_at_most,
+ * explored path by path (--paths lifo; see contracts/endpoints.h).  Up to
+ * EP_CHUNKS_MAX chunks, every one in an arbitrary well-formed state.
+ * Obligations: chunks without unread octets are skipped and only those
+ * (nothing lost); the octets come, in order, from the first chunk that has
+ * some, at most n of them, and only that chunk's offset moves; -ENODATA
+ * exactly when every chunk from `active` on is empty; nothing else changes. */
+#if EP_CHUNKS_MAX > 4
+#error "h_read_from_chunks sets up at most 4 chunks"
+#endif
 #define EP_CHUNK(i) \
   IN(size_t, in_size##i) IN(size_t, in_used##i) IN(size_t, in_offset##i) \
-  EP_FOLD(in_size##i, 1, EP_NMAX) EP_FOLD(in_used##i, 0, in_size##i) EP_FOLD(in_offset##i, 0, in_used##i) \
-  ASSUME(in_size##i >= 1 && in_size##i <= EP_NMAX && in_offset##i <= in_used##i && in_used##i <= in_size##i); \
+  EP_FOLD(in_size##i, 1, EP_CNMAX) EP_FOLD(in_used##i, 0, in_size##i) EP_FOLD(in_offset##i, 0, in_used##i) \
+  ASSUME(in_size##i >= 1 && in_size##i <= EP_CNMAX && in_offset##i <= in_used##i && in_used##i <= in_size##i); \
   IN_MEM(in_data##i, in_size##i) \
-  if (i < in_chunks) { chunk[i].data = in_data##i; chunk[i].size = in_size##i; chunk[i].used = in_used##i; chunk[i].offset = in_offset##i; }
+  if (i < EP_CHUNKS_MAX) { chunk[i < EP_CHUNKS_MAX ? i : 0].data = in_data##i; chunk[i < EP_CHUNKS_MAX ? i : 0].size = in_size##i; \
+    chunk[i < EP_CHUNKS_MAX ? i : 0].used = in_used##i; chunk[i < EP_CHUNKS_MAX ? i : 0].offset = in_offset##i; \
+    old_data[i < EP_CHUNKS_MAX ? i : 0] = in_data##i; old_size[i < EP_CHUNKS_MAX ? i : 0] = in_size##i; \
+    old_used[i < EP_CHUNKS_MAX ? i : 0] = in_used##i; old_offset[i < EP_CHUNKS_MAX ? i : 0] = in_offset##i; \
+    old_cell[i < EP_CHUNKS_MAX ? i : 0] = in_data##i[g_k < in_size##i ? g_k : 0]; }
+#ifndef EP_CNMAX
+#define EP_CNMAX 16
+#endif
 
 void h_read_from_chunks(void)
 {
   GHOST_HAVOC();
   IN(size_t, in_chunks) IN(size_t, in_active)
-  EP_FOLD(in_chunks, 1, EP_CHUNKS_MAX) EP_FOLD(in_active, 0, in_chunks)
-  ASSUME(in_chunks >= 1 && in_chunks <= EP_CHUNKS_MAX && in_active <= in_chunks);
-  ByteBuffer *chunk = malloc(in_chunks * sizeof(ByteBuffer));
-  ASSUME(chunk != NULL);
+  EP_FOLD(in_chunks, 0, EP_CHUNKS_MAX) EP_FOLD(in_active, 0, in_chunks)
+  ASSUME(in_chunks <= EP_CHUNKS_MAX && in_active <= in_chunks);
+  ByteBuffer chunk[EP_CHUNKS_MAX];
+  unsigned char *old_data[EP_CHUNKS_MAX], old_cell[EP_CHUNKS_MAX];
+  size_t old_size[EP_CHUNKS_MAX], old_used[EP_CHUNKS_MAX], old_offset[EP_CHUNKS_MAX];
   EP_CHUNK(0) EP_CHUNK(1) EP_CHUNK(2) EP_CHUNK(3)
   ByteChunks c = { in_chunks, in_active, chunk };
-  IN(size_t, in_n) EP_FOLD(in_n, 1, EP_NMAX)
-  ASSUME(in_n >= 1 && in_n <= EP_NMAX);
+  IN(size_t, in_n) EP_FOLD(in_n, 1, EP_CNMAX)
+  ASSUME(in_n >= 1 && in_n <= EP_CNMAX);
   IN_MEM(in_dst, in_n)
-  read_from_chunks(&c, in_dst, in_n);
+
+  const ssize_t r = read_from_chunks(&c, in_dst, in_n);
+
+  CHECK(c.chunks == in_chunks && c.chunk == chunk, "the chunk list itself is unchanged");
+  CHECK(c.active >= in_active && c.active <= in_chunks, "active only moves forward, never past the list");
+  CHECK(r == -ENODATA || (r >= 1 && (size_t)r <= in_n), "returns -ENODATA or a count 1..n");
+  CHECK(IMPLIES(r < 0, c.active == in_chunks), "-ENODATA only after the whole list has been examined");
+  CHECK(IMPLIES(r >= 0, c.active < in_chunks), "a count comes from a chunk of the list");
+  if (g_j < in_chunks && g_j < EP_CHUNKS_MAX) {
+    const ByteBuffer *q = &chunk[g_j];
+    CHECK(q->data == old_data[g_j] && q->size == old_size[g_j] && q->used == old_used[g_j],
+          "no chunk's storage, size or fill level changes");
+    CHECK(q->data[g_k < q->size ? g_k : 0] == old_cell[g_j], "no chunk's content changes");
+    CHECK(IMPLIES(g_j >= in_active && g_j < c.active, old_used[g_j] == old_offset[g_j]),
+          "only chunks without unread octets are skipped");
+    CHECK(IMPLIES(!(r >= 0 && g_j == c.active), q->offset == old_offset[g_j]),
+          "only the offset of the chunk that was read from moves");
+    if (r >= 0 && g_j == c.active) {
+      const size_t rest = old_used[g_j] - old_offset[g_j];
+      CHECK(rest > 0, "the chunk read from had unread octets");
+      CHECK((size_t)r == (in_n < rest ? in_n : rest), "count == min(n, unread octets of that chunk)");
+      CHECK(q->offset == old_offset[g_j] + (size_t)r, "its offset advances by the count");
+      CHECK(IMPLIES(g_a < (size_t)r, in_dst[g_a < in_n ? g_a : 0] == q->data[(old_offset[g_j] + g_a) < q->size ? (old_offset[g_j] + g_a) : 0]),
+            "the octets delivered are that chunk's oldest unread octets, in order");
+    }
+  }
   VERIF_CANARY();
 }
 
